@@ -1133,7 +1133,10 @@ func (dc *driverContextInsertion) transition(driver stateTableDriver, entry tabl
 		if buffer.maxOps <= 0 || buffer.exceedsMaxLen(count) {
 			return
 		}
-		start := markedInsertIndex
+		start := int(markedInsertIndex)
+		if start+count > len(dc.insertionAction) { // invalid glyphs array: insert nothing
+			start, count = 0, 0
+		}
 		glyphs := dc.insertionAction[start:]
 
 		before := flags&miMarkedInsertBefore != 0
@@ -1170,7 +1173,10 @@ func (dc *driverContextInsertion) transition(driver stateTableDriver, entry tabl
 		if buffer.exceedsMaxLen(count) {
 			return
 		}
-		start := currentInsertIndex
+		start := int(currentInsertIndex)
+		if start+count > len(dc.insertionAction) { // invalid glyphs array: insert nothing
+			start, count = 0, 0
+		}
 		glyphs := dc.insertionAction[start:]
 
 		before := flags&miCurrentInsertBefore != 0
